@@ -598,3 +598,68 @@ Definition parked_model_ok (c : parked_case) : bool :=
 
 Definition c05_parked_violations (cs : list parked_case) : list nat := indices_where (fun c => negb (parked_ok c)) cs.
 Definition c05_parked_mismatches (cs : list parked_case) : list nat := indices_where (fun c => negb (parked_model_ok c)) cs.
+
+(* ---------- large inbound PUBLISH packets, complete or cut by the end of the stream ---------- *)
+(* bytes the broker sent after the CONNACK (one PUBLISH, possibly cut short), what the handler received,
+   how the connection ended: 1 = io.EOF, 2 = io.ErrUnexpectedEOF, 9 = anything else *)
+Definition trunc_case := (list N * option message * N)%type.
+
+(* property, judged with the independent decoder: a complete PUBLISH is handed over with exactly its fields
+   and the stream then ends normally; of a packet whose body is shorter than its remaining length says
+   NOTHING is handed over and the connection ends with an unexpected-EOF error *)
+Definition trunc_ok (c : trunc_case) : bool :=
+  let '(stream, obs, code) := c in
+  match spec_decode stream with
+  | Some (PPublish dup q rt t id pl, rest) =>
+      (* a complete QoS 2 PUBLISH is followed by its PUBREL, a QoS 0/1 PUBLISH by nothing *)
+      (if q =? 2 then match spec_decode rest, id with
+                      | Some (PPubRel i, []), Some j => i =? j
+                      | _, _ => false
+                      end
+       else is_nil_b rest)
+      && omsg_eqb obs (Some {| m_topic := t; m_id := match id with Some i => i | None => 0 end; m_qos := q;
+                               m_retain := rt; m_dup := dup; m_payload := pl |})
+      && (code =? 1)
+  | Some _ => false
+  | None => match obs with None => code =? 2 | Some _ => false end
+  end.
+
+Definition trunc_model_ok (c : trunc_case) : bool :=
+  let '(stream, obs, code) := c in
+  let '(evs, e) := serve true stream in
+  list_eqb message_eqb (hands (in_events evs)) (match obs with Some m => [m] | None => [] end)
+  && match e with
+     | EndErr EEOF => code =? 1
+     | EndErr EUnexpectedEOF => code =? 2
+     | _ => false
+     end.
+
+Definition c05_trunc_violations (cs : list trunc_case) : list nat := indices_where (fun c => negb (trunc_ok c)) cs.
+Definition c05_trunc_mismatches (cs : list trunc_case) : list nat := indices_where (fun c => negb (trunc_model_ok c)) cs.
+
+(* ---------- RetryClient: SUBSCRIBE / UNSUBSCRIBE requests on the wire = the application's, in order ---------- *)
+Definition rcreq_case := (list sop * list (list N))%type.
+
+Fixpoint rcreq_seq_ok (ops : list sop) (ps : list packet) : bool :=
+  match ops, ps with
+  | [], [] => true
+  | SSub subs :: r, PSubscribe id ss :: ps' => subs_eqb ss subs && negb (id =? 0) && rcreq_seq_ok r ps'
+  | SUnsub ts :: r, PUnsubscribe id tps :: ps' => list_eqb str_eqb tps ts && negb (id =? 0) && rcreq_seq_ok r ps'
+  | _, _ => false
+  end.
+
+Definition rcreq_ok (c : rcreq_case) : bool :=
+  let '(ops, ws) := c in
+  match decode_conn ws with Some ps => rcreq_seq_ok ops ps | None => false end.
+
+Fixpoint rcreq_bytes_ok (ops : list sop) (ws : list (list N)) : bool :=
+  match ops, ws with
+  | [], [] => true
+  | SSub subs :: r, w :: ws' => obytes_eqb (pack_subscribe (packet_id_of w) subs) (Some w) && rcreq_bytes_ok r ws'
+  | SUnsub ts :: r, w :: ws' => obytes_eqb (pack_unsubscribe (packet_id_of w) ts) (Some w) && rcreq_bytes_ok r ws'
+  | _, _ => false
+  end.
+
+Definition c05_rcreq_violations (cs : list rcreq_case) : list nat := indices_where (fun c => negb (rcreq_ok c)) cs.
+Definition c05_rcreq_mismatches (cs : list rcreq_case) : list nat :=
+  indices_where (fun c => negb (rcreq_bytes_ok (fst c) (snd c))) cs.
